@@ -61,7 +61,7 @@ CHECKS = {
         "assumptions": E2E_ASSUME,
     },
     "C11": {
-        "module": "Vanguard.Props.C11", "namespace": "Vanguard.C11", "streams": ["e2e", "codes", "percent", "timeout", "escape", "route", "envelope"],
+        "module": "Vanguard.Props.C11", "namespace": "Vanguard.C11", "streams": ["e2e", "codes", "percent", "timeout", "escape", "route", "envelope", "rest", "schema", "config"],
         "partial": "panic-freedom is proved for every outcome-reporting path; for the writer/reader loops it is checked by correspondence; "
                    "framing by a real HTTP stack is represented by httptest.ResponseRecorder only",
         "assumptions": E2E_ASSUME,
